@@ -774,6 +774,11 @@ func (c *fnCtx) stmts(list []ast.Stmt, ind string) string {
 		if bv == "" {
 			fnFail("loop bound other than a local or len(local)")
 		}
+		if ce, ok := cond.Y.(*ast.CallExpr); ok && !c.isSlice(ce.Args[0]) {
+			// `for i := 0; i < len(xs); i++` over a local that is not reassigned: printed exactly like
+			// `for i := range xs` (same count, `xs[i]` allowed), so that the two spellings give one definition
+			return c.loop(iv.Name, "(Go.Len.lenN "+bv+")", "", s.Body.List, rest, ind, bv)
+		}
 		return c.loop(iv.Name, "(Int.toNat "+paren(bound)+")", "", s.Body.List, rest, ind, "")
 	case *ast.AssignStmt:
 		if s.Tok != token.DEFINE && s.Tok != token.ASSIGN {
